@@ -132,7 +132,7 @@ def run(res, pid=PID, scs_fn=scenarios, nontrivial_fn=nontrivial, rule=None):
         rr = storelib.run_impl([dict(small, id=0)])
         mm, _ = storelib.coq_compare(pid.lower() + "s", [dict(small, id=0)], rr, jobs=1)
         res.violation({"kind": "model-vs-impl", "failed": "correspondence Model/StoreRun.v vs internal/kvstore: observation at step %s" % (mm[0][1] if mm else "?"),
-                       "scenario": small, "impl_trace": rr[0]["obs"], "model_obs": mm[0][2] if mm else None,
+                       "scenario": small, "impl_trace": rr[0]["obs"], "model_trace": storelib.model_trace(dict(small, _obs=rr[0]["obs"])),
                        "note": "the reference-map predicate holds on every explored implementation trace", "seed": res.seed},
                       no_input=True)
     if not proofs_ok and not res.violations:
